@@ -298,6 +298,9 @@ pub struct Plan {
     /// from the start of this call on the terminal holds a dangling pre-authorisation with this receipt number and
     /// reports it on every pending query until a reversal of it completes
     pub dangling_from_call: Option<(usize, u64)>,
+    /// receipt numbers repeat: the terminal issues only this many different numbers, in turn (0: the counter runs on) -
+    /// two reservations that are open at the same time can then carry the same number
+    pub receipt_cycle: u64,
 }
 
 // ---------------------------------------------------------------- shared state and log
@@ -372,6 +375,9 @@ pub struct Shared {
     pub requests: Vec<Request>,
     pub ledger: Vec<PreAuth>,
     pub next_receipt: u64,
+    /// reservations answered so far / the first number issued (receipt_cycle)
+    pub issued: u64,
+    pub first_receipt: Option<u64>,
     /// receipt the terminal reports as dangling on a pending query
     pub dangling: Option<u64>,
     pub next_conn: usize,
@@ -406,6 +412,8 @@ impl Shared {
             requests: vec![],
             ledger: vec![],
             next_receipt: 231,
+            issued: 0,
+            first_receipt: None,
             dangling: None,
             next_conn: 0,
             call: 0,
@@ -667,6 +675,11 @@ fn respond(sh: &mut Shared, cmd: Cmd, val: &Val) -> (Vec<Vec<u8>>, u64, Effect) 
             ExResult::Normal => {
                 let receipt = sh.next_receipt;
                 sh.next_receipt = if receipt >= 9999 { 1 } else { receipt + 1 };
+                if sh.plan.receipt_cycle > 0 {
+                    sh.issued += 1;
+                    let first = *sh.first_receipt.get_or_insert(receipt);
+                    sh.next_receipt = first + sh.issued % sh.plan.receipt_cycle;
+                }
                 sh.trace_counter += 1;
                 let token = val.path("tlv.bmp_data.bmp_data").and_then(|t| t.text()).unwrap_or("").to_string();
                 let reserved = val.field("amount").and_then(|a| a.num()).unwrap_or(0);
